@@ -3,6 +3,7 @@ package checks
 import (
 	"fmt"
 	"math"
+	"strconv"
 	"strings"
 
 	"github.com/pip-services3-gox/pip-services3-expressions-gox/variants"
@@ -256,6 +257,21 @@ func sameFloat(a, b float64) bool {
 	return math.Float64bits(a) == math.Float64bits(b) || (a != a && b != b)
 }
 
+func plainIntText(t string) bool {
+	if t != "" && (t[0] == '+' || t[0] == '-') {
+		t = t[1:]
+	}
+	if t == "" {
+		return false
+	}
+	for _, ch := range t {
+		if ch < '0' || ch > '9' {
+			return false
+		}
+	}
+	return true
+}
+
 // c06Expect computes the expected outcome of op(a,b) under manager mgr.
 // It returns the expected value, the status, and a note for unspecified zones.
 func c06Expect(mgrName string, mgr variants.IVariantOperations, op string, a, b Val) (Val, int, string) {
@@ -384,6 +400,16 @@ func c06Expect(mgrName string, mgr variants.IVariantOperations, op string, a, b 
 		return vDouble(math.Pow(ad.Double(), bd.Double())), stValue, "pow"
 	}
 	bc, ok := conv(b, a.T)
+	if b.T == "S" && (a.T == "I" || a.T == "L") && mgrName == "unsafe" {
+		// a text that is a plain integer literal in range denotes that integer, whatever its length or padding
+		if exact, err := strconv.ParseInt(b.V, 10, 64); err == nil && plainIntText(b.V) {
+			if a.T == "I" {
+				bc, ok = vInt(int(exact)), true
+			} else {
+				bc, ok = vLong(exact), true
+			}
+		}
+	}
 	if !ok {
 		return Val{}, stError, ""
 	}
@@ -469,6 +495,33 @@ func c06Exec(c *mon.Case) {
 		}
 		c.NonTrivial()
 		c.Mark("operator-x-type", op+":"+a.T)
+	}
+	// membership when the list holds the very object that is probed for (as `x IN Array(1, 2, x)` does)
+	if op == "In" && a.T == "A" {
+		a2 := vArr(append(append([]Val{}, a.E...), b)...)
+		elems := []*variants.Variant{}
+		for _, e := range a.E {
+			elems = append(elems, e.Variant())
+		}
+		probe := b.Variant()
+		elems = append(elems, probe)
+		var r2 *variants.Variant
+		var e2 error
+		if p := mon.Try(func() { r2, e2 = callOp(mgr, op, variants.VariantFromArray(elems), probe) }); p != nil {
+			c.FailPanic(op+" (list holding the probed object)", p)
+			return
+		}
+		want2, st2, _ := c06Expect(mgrName, mgr, op, a2, b)
+		switch {
+		case st2 == stValue && (e2 != nil || r2 == nil || !snap(r2).Same(want2)):
+			c.Failf("In differs from list semantics when the list holds the probed object itself", "%s manager In(%s, same object as last element %s) -> %v %v, expected %s", mgrName, a2, b, r2, e2, want2)
+			return
+		case st2 == stError && e2 == nil:
+			c.Failf("In returns a value for an undefined operation when the list holds the probed object itself", "%s manager In(%s, %s) -> %s", mgrName, a2, b, snap(r2))
+			return
+		case st2 == stValue:
+			c.Count("in-with-shared-element-compared")
+		}
 	}
 	// consistency of the comparison family on this ordered pair
 	if op == "Equal" && a.T != "A" {
@@ -559,7 +612,13 @@ func buildC06(cfg *mon.Config) []*mon.Sub {
 			r := cfg.Rng("c06-random")
 			for i := 0; i < cfg.N(3000, 250000); i++ {
 				a, b := randomVal(r, 0), randomVal(r, 0)
-				if r.Chance(1, 3) {
+				if r.Chance(1, 6) { // big whole bases with small exponents of either sign
+					a = vLong(int64(r.Next()>>uint(1+r.Intn(31))) * int64(1-2*r.Intn(2)))
+					b = vInt(r.Intn(81) - 40)
+					if r.Bool() {
+						a = vInt(int(a.Long()))
+					}
+				} else if r.Chance(1, 3) {
 					b = mon.Pick(r, pool)
 				} else if r.Chance(1, 3) {
 					a = mon.Pick(r, pool)
